@@ -63,9 +63,9 @@ structure GWF (mt : MultiCouplingTerms α) : Prop where
   hasR : ∀ c kk, mt.conns.getD c none = some kk → ∃ p ∈ mt.right, c ∈ p.counters
   connOK : ∀ c kk, mt.conns.getD c none = some kk →
     0 ≤ kk.switchLR ∧ kk.switchLR < (mt.L : Int) ∧ kk.shift = 0
-  leftOK : ∀ p ∈ mt.left, (p.path.map (·.1)).Pairwise (· < ·) ∧ (∀ t ∈ p.path, 0 ≤ t.1) ∧
+  leftOK : ∀ p ∈ mt.left, (p.path.map (·.1)).Pairwise (· < ·) ∧ (∀ t ∈ p.path, 0 ≤ t.1 ∧ t.1 < (mt.L : Int)) ∧
     ∀ c ∈ p.counters, ∀ kk, mt.conns.getD c none = some kk → ∀ t ∈ p.path, t.1 < kk.switchLR
-  rightOK : ∀ p ∈ mt.right, (p.path.map (·.1)).Pairwise (· > ·) ∧ (∀ t ∈ p.path, t.1 < (mt.L : Int)) ∧
+  rightOK : ∀ p ∈ mt.right, (p.path.map (·.1)).Pairwise (· > ·) ∧ (∀ t ∈ p.path, 0 ≤ t.1 ∧ t.1 < (mt.L : Int)) ∧
     ∀ c ∈ p.counters, ∀ kk, mt.conns.getD c none = some kk → ∀ t ∈ p.path, kk.switchLR < t.1
   leftDisj : mt.left.Pairwise (fun p q => p.path ≠ q.path ∧ ∀ c ∈ p.counters, c ∉ q.counters)
   rightDisj : mt.right.Pairwise (fun p q => p.path ≠ q.path ∧ ∀ c ∈ p.counters, c ∉ q.counters)
